@@ -70,7 +70,7 @@ def run_mc(tier, result, errors):
         def one(kind):
             cfg = os.path.join(d, "MC_%s.cfg" % kind)
             vk.write_cfg(cfg, "Spec", mc_constants(kind, tier), invariants=["Inv"], properties=MC_PROPS, constraint="Bound")
-            r = vk.tlc_mc(d, "MC_Packet", cfg, workers=5, timeout=5400, deps=["IBCPacket", "PacketActions"])
+            r = vk.tlc_mc(d, "MC_Packet", cfg, workers=5, timeout=5400, reuse=True, deps=["IBCPacket", "PacketActions"])
             seen = set(re.findall(r'<<"WITNESS", "([A-Za-z0-9]+)">>', r["out"]))
             missing = [w for w in MC_WITNESS[kind] if w not in seen]
             if missing:
